@@ -1230,5 +1230,15 @@ func flatUrlCase(r *rand.Rand, o ruleOpts) Case {
 	case 1:
 		src = pick(r, []interface{}{nil, (*string)(nil), 5, []byte("x")})
 	}
+	if chance(r, 0.2) {
+		local := map[string]string{"lcustom": "L1"}
+		if chance(r, 0.5) {
+			local[pick(r, []string{"phone", "to", "int", "lshadow", "required"})] = "L3"
+		}
+		if chance(r, 0.15) {
+			rm, local = valid.RM{}, map[string]string{"lcustom": "L1"}
+		}
+		return urlCaseFns(src, rm, local, []string{"carrier:url", "fns:local"}, "")
+	}
 	return urlCase(src, rm, []string{"carrier:url"}, "")
 }
